@@ -168,7 +168,20 @@ func genLiveCase(t *rapid.T) LiveCase {
 }
 
 // liveObj carries the pointer-receiver methods of route "method"; every parameter is interface{}.
-type liveObj struct{ calls [][]reflect.Value }
+type liveObj struct {
+	calls [][]reflect.Value
+	// arrived, when set, is told about every invocation (calls made on another goroutine: `laterargs`)
+	arrived chan struct{}
+}
+
+func (o *liveObj) tell() {
+	if o.arrived != nil {
+		select {
+		case o.arrived <- struct{}{}:
+		default:
+		}
+	}
+}
 
 func (o *liveObj) rec(ps ...*interface{}) int64 {
 	in := make([]reflect.Value, len(ps))
@@ -176,6 +189,7 @@ func (o *liveObj) rec(ps ...*interface{}) int64 {
 		in[i] = reflect.ValueOf(p).Elem()
 	}
 	o.calls = append(o.calls, in)
+	o.tell()
 	return 77
 }
 func (o *liveObj) recv(rest []interface{}, ps ...*interface{}) int64 {
@@ -184,6 +198,7 @@ func (o *liveObj) recv(rest []interface{}, ps ...*interface{}) int64 {
 		in[i] = reflect.ValueOf(p).Elem()
 	}
 	o.calls = append(o.calls, append(in, reflect.ValueOf(rest)))
+	o.tell()
 	return 77
 }
 func (o *liveObj) M1(a interface{}) int64                   { return o.rec(&a) }
@@ -214,97 +229,12 @@ func liveOracle(c LiveCase, o *h.Obs) *h.Fail {
 		return nil
 	}
 	e := env.NewEnv()
-	var pre []string
 
 	// ---- the places: bound to / made under the names s0, s1, …; cur is the reference's state
-	cur := make([]interface{}, len(c.Slots))
-	expr := make([]string, len(c.Slots))
-	goStore := make([]func(interface{}), len(c.Slots))
-	for i, sl := range c.Slots {
-		i, sl := i, sl
-		if sl.Idx < 0 || sl.Idx > 2 || sl.Init < 0 {
-			o.Excluded = "bad_case"
-			return nil
-		}
-		name := "s" + strconv.Itoa(i)
-		idx := strconv.Itoa(sl.Idx)
-		cur[i] = liveVal(sl.Kind, sl.Init)
-		other := func(j int) interface{} { return liveVal(sl.Kind, 1000+10*i+j) }
-		elems := []interface{}{other(0), other(1), other(2)}
-		elems[sl.Idx] = cur[i]
-		lits := []string{liveLit(elems[0]), liveLit(elems[1]), liveLit(elems[2])}
-		switch sl.Kind {
-		case "ss":
-			g := []string{elems[0].(string), elems[1].(string), elems[2].(string)}
-			e.Define(name, g)
-			expr[i] = name + "[" + idx + "]"
-			goStore[i] = func(v interface{}) { g[sl.Idx] = v.(string) }
-		case "ii":
-			g := []int64{elems[0].(int64), elems[1].(int64), elems[2].(int64)}
-			e.Define(name, g)
-			expr[i] = name + "[" + idx + "]"
-			goStore[i] = func(v interface{}) { g[sl.Idx] = v.(int64) }
-		case "ff":
-			g := []float64{elems[0].(float64), elems[1].(float64), elems[2].(float64)}
-			e.Define(name, g)
-			expr[i] = name + "[" + idx + "]"
-			goStore[i] = func(v interface{}) { g[sl.Idx] = v.(float64) }
-		case "aa":
-			g := []interface{}{elems[0], elems[1], elems[2]}
-			e.Define(name, g)
-			expr[i] = name + "[" + idx + "]"
-			goStore[i] = func(v interface{}) { g[sl.Idx] = v }
-		case "ts":
-			pre = append(pre, name+" = []string{"+strings.Join(lits, ", ")+"}")
-			expr[i] = name + "[" + idx + "]"
-		case "ti":
-			pre = append(pre, name+" = []int64{"+strings.Join(lits, ", ")+"}")
-			expr[i] = name + "[" + idx + "]"
-		case "fB":
-			g := &S{B: cur[i].(string), A: 5}
-			e.Define(name, g)
-			expr[i] = name + ".B"
-			goStore[i] = func(v interface{}) { g.B = v.(string) }
-		case "fA":
-			g := &S{A: cur[i].(int64), B: "b"}
-			e.Define(name, g)
-			expr[i] = name + ".A"
-			goStore[i] = func(v interface{}) { g.A = v.(int64) }
-		case "fE":
-			g := &S{E: cur[i], B: "b"}
-			e.Define(name, g)
-			expr[i] = name + ".E"
-			goStore[i] = func(v interface{}) { g.E = v }
-		case "xB":
-			g := []S{{B: elems[0].(string)}, {B: elems[1].(string)}, {B: elems[2].(string)}}
-			e.Define(name, g)
-			expr[i] = name + "[" + idx + "].B"
-			goStore[i] = func(v interface{}) { g[sl.Idx].B = v.(string) }
-		case "dS":
-			g := new(string)
-			*g = cur[i].(string)
-			e.Define(name, g)
-			expr[i] = "*" + name
-			goStore[i] = func(v interface{}) { *g = v.(string) }
-		case "dI":
-			g := new(int64)
-			*g = cur[i].(int64)
-			e.Define(name, g)
-			expr[i] = "*" + name
-			goStore[i] = func(v interface{}) { *g = v.(int64) }
-		case "var":
-			pre = append(pre, name+" = "+liveLit(cur[i]))
-			expr[i] = name
-		case "list":
-			pre = append(pre, name+" = ["+strings.Join(lits, ", ")+"]")
-			expr[i] = name + "[" + idx + "]"
-		case "map":
-			pre = append(pre, name+" = {\"k\": "+liveLit(cur[i])+", \"j\": "+lits[(sl.Idx+1)%3]+"}")
-			expr[i] = name + ".k"
-		default:
-			o.Excluded = "bad_case"
-			return nil
-		}
+	cur, expr, goStore, pre, okPlaces := livePlaces(e, c.Slots)
+	if !okPlaces {
+		o.Excluded = "bad_case"
+		return nil
 	}
 	initial := append([]interface{}{}, cur...)
 
@@ -572,4 +502,98 @@ func argVWithSpread(argV []reflect.Value, spread reflect.Value) []reflect.Value 
 		}
 	}
 	return out
+}
+
+// livePlaces binds / makes the places of a case under the names s0, s1, …: cur is the value every
+// place holds at the start, expr the expression that reads (and, on the left of `=`, stores into)
+// it, goStore a Go-side store for the bound places, pre the statements that make the script-made ones.
+func livePlaces(e *env.Env, slots []LiveSlot) (cur []interface{}, expr []string, goStore []func(interface{}), pre []string, ok bool) {
+	cur = make([]interface{}, len(slots))
+	expr = make([]string, len(slots))
+	goStore = make([]func(interface{}), len(slots))
+	for i, sl := range slots {
+		i, sl := i, sl
+		if sl.Idx < 0 || sl.Idx > 2 || sl.Init < 0 {
+			return nil, nil, nil, nil, false
+		}
+		name := "s" + strconv.Itoa(i)
+		idx := strconv.Itoa(sl.Idx)
+		cur[i] = liveVal(sl.Kind, sl.Init)
+		other := func(j int) interface{} { return liveVal(sl.Kind, 1000+10*i+j) }
+		elems := []interface{}{other(0), other(1), other(2)}
+		elems[sl.Idx] = cur[i]
+		lits := []string{liveLit(elems[0]), liveLit(elems[1]), liveLit(elems[2])}
+		switch sl.Kind {
+		case "ss":
+			g := []string{elems[0].(string), elems[1].(string), elems[2].(string)}
+			e.Define(name, g)
+			expr[i] = name + "[" + idx + "]"
+			goStore[i] = func(v interface{}) { g[sl.Idx] = v.(string) }
+		case "ii":
+			g := []int64{elems[0].(int64), elems[1].(int64), elems[2].(int64)}
+			e.Define(name, g)
+			expr[i] = name + "[" + idx + "]"
+			goStore[i] = func(v interface{}) { g[sl.Idx] = v.(int64) }
+		case "ff":
+			g := []float64{elems[0].(float64), elems[1].(float64), elems[2].(float64)}
+			e.Define(name, g)
+			expr[i] = name + "[" + idx + "]"
+			goStore[i] = func(v interface{}) { g[sl.Idx] = v.(float64) }
+		case "aa":
+			g := []interface{}{elems[0], elems[1], elems[2]}
+			e.Define(name, g)
+			expr[i] = name + "[" + idx + "]"
+			goStore[i] = func(v interface{}) { g[sl.Idx] = v }
+		case "ts":
+			pre = append(pre, name+" = []string{"+strings.Join(lits, ", ")+"}")
+			expr[i] = name + "[" + idx + "]"
+		case "ti":
+			pre = append(pre, name+" = []int64{"+strings.Join(lits, ", ")+"}")
+			expr[i] = name + "[" + idx + "]"
+		case "fB":
+			g := &S{B: cur[i].(string), A: 5}
+			e.Define(name, g)
+			expr[i] = name + ".B"
+			goStore[i] = func(v interface{}) { g.B = v.(string) }
+		case "fA":
+			g := &S{A: cur[i].(int64), B: "b"}
+			e.Define(name, g)
+			expr[i] = name + ".A"
+			goStore[i] = func(v interface{}) { g.A = v.(int64) }
+		case "fE":
+			g := &S{E: cur[i], B: "b"}
+			e.Define(name, g)
+			expr[i] = name + ".E"
+			goStore[i] = func(v interface{}) { g.E = v }
+		case "xB":
+			g := []S{{B: elems[0].(string)}, {B: elems[1].(string)}, {B: elems[2].(string)}}
+			e.Define(name, g)
+			expr[i] = name + "[" + idx + "].B"
+			goStore[i] = func(v interface{}) { g[sl.Idx].B = v.(string) }
+		case "dS":
+			g := new(string)
+			*g = cur[i].(string)
+			e.Define(name, g)
+			expr[i] = "*" + name
+			goStore[i] = func(v interface{}) { *g = v.(string) }
+		case "dI":
+			g := new(int64)
+			*g = cur[i].(int64)
+			e.Define(name, g)
+			expr[i] = "*" + name
+			goStore[i] = func(v interface{}) { *g = v.(int64) }
+		case "var":
+			pre = append(pre, name+" = "+liveLit(cur[i]))
+			expr[i] = name
+		case "list":
+			pre = append(pre, name+" = ["+strings.Join(lits, ", ")+"]")
+			expr[i] = name + "[" + idx + "]"
+		case "map":
+			pre = append(pre, name+" = {\"k\": "+liveLit(cur[i])+", \"j\": "+lits[(sl.Idx+1)%3]+"}")
+			expr[i] = name + ".k"
+		default:
+			return nil, nil, nil, nil, false
+		}
+	}
+	return cur, expr, goStore, pre, true
 }
